@@ -94,6 +94,10 @@ fn main() {
             }
             let sb = t1::sparse_big::<4200>(&mut w) + if thorough { t1::sparse_big::<8192>(&mut w) + t1::sparse_big::<16385>(&mut w) } else { t1::sparse_big::<8192>(&mut w) };
             eprintln!("STAT t1_sparse_big transitions={} sizes=4200,8192{}", sb, if thorough { ",16385" } else { "" });
+            let ck = t1::cof_kinds::<8>(&mut w);
+            eprintln!("STAT t1_cof_error_kinds transitions={}", ck);
+            let rp = t1::repeat::<16>(&mut w) + t1::repeat::<64>(&mut w);
+            eprintln!("STAT t1_repeat transitions={} cycles=300 sizes=16,64", rp);
             let tv = t1::vectored::<0>(&mut w) + t1::vectored::<1>(&mut w) + t1::vectored::<2>(&mut w) + t1::vectored::<3>(&mut w) + t1::vectored::<5>(&mut w) + t1::vectored::<8>(&mut w) + t1::vectored::<13>(&mut w);
             eprintln!("STAT t1_vectored calls={} sizes=0,1,2,3,5,8,13", tv);
             gt += t1::grid_df::<33>(31, b"\n", &mut w) + t1::grid_df::<33>(24, b"\r\n", &mut w) + t1::grid_df::<40>(33, b"\0", &mut w);
